@@ -82,6 +82,9 @@ type Scenario struct {
 	Horizon   int
 	// GlobalsHash folds package-level state of the code under test into the key.
 	GlobalsHash func() uint64
+	// DeadlockProp is the property a deadlock (every unfinished process blocked in the sync shim) is
+	// reported under.
+	DeadlockProp string
 }
 
 type Stats struct {
@@ -199,16 +202,31 @@ func (e *Explorer) run(prefix []int, useCache bool, keepTrace bool) (*Exec, erro
 	}()
 	for step := 0; ; step++ {
 		var alts []Alt
-		curEnabled := cur >= 0 && !w.Procs[cur].Finished
+		curEnabled := cur >= 0 && w.Procs[cur].Runnable()
 		if curEnabled {
 			alts = append(alts, Alt{Pid: cur})
 		}
+		unfinished := 0
 		for _, p := range w.Procs {
-			if !p.Finished && p.ID != cur {
+			if !p.Finished {
+				unfinished++
+			}
+			if p.Runnable() && p.ID != cur {
 				alts = append(alts, Alt{Pid: p.ID})
 			}
 		}
 		if len(alts) == 0 {
+			if unfinished > 0 {
+				// every unfinished process is parked at a blocking operation
+				var who []string
+				for _, p := range w.Procs {
+					if !p.Finished {
+						who = append(who, fmt.Sprintf("p%d at %s", p.ID, p.pending.Kind))
+					}
+				}
+				w.Violate(sc.DeadlockProp, "deadlock:all-goroutines-blocked", "no process can run: "+strings.Join(who, ", "))
+				return x, nil
+			}
 			break
 		}
 		if crashes < sc.MaxCrashes {
